@@ -332,7 +332,13 @@ def case_ufunc(ctx, inp):
     import numpy as np
     import dask.array as da
     dname, nname, kind = inp["ufunc"]
-    npf = getattr(np, nname)
+    # the reference is NumPy's function of the DASK name (np.conj / np.abs / np.invert exist as well): the wrapped name read
+    # from the source (`nname`, the extracted table behind theorem ufunc_names_agree) must be that function
+    npf = getattr(np, dname, None)
+    if npf is None:
+        npf = getattr(np, nname)
+    elif getattr(np, nname, None) is not npf:
+        ctx.fail(f"dask/array/ufunc.py: da.{dname} wraps np.{nname}, which is not np.{dname}")
     daf = getattr(da, dname, None)
     if daf is None:
         import dask.array.ufunc as duf
